@@ -222,6 +222,13 @@ pub fn realise_fb(g: &Graph, salt: u64, arrays: bool) -> (String, Vec<(usize, us
             let name = name_for(format!("leaf{}", i), mix(z ^ i as u64), &mut taken);
             s.push_str(&format!("VAR\n{} : INT;\nEND_VAR\n", name));
         }
+        // now and then a VAR_EXTERNAL of a function block type - the block itself (a peer instance),
+        // one that contains it, any other: an external variable refers to a global instance, it
+        // contains nothing, so it is no edge
+        if mix(salt ^ (i as u64 * 2713) ^ 0xe7) % 5 == 0 {
+            let j = (mix(salt ^ (i as u64 * 389) ^ 0xe8) % g.n as u64) as usize;
+            s.push_str(&format!("VAR_EXTERNAL\next{}_{} : {};\nEND_VAR\n", i, j, recase(&format!("fb{}", j), salt ^ (i * 17 + j) as u64)));
+        }
         if with_bodies {
             for (k, c) in calls.iter().enumerate() {
                 if mix(z ^ (k as u64 * 977 + i as u64)) % 4 != 0 {
@@ -780,7 +787,7 @@ pub fn run(ctx: &Ctx) -> i32 {
         ctx.tier,
         ctx.seed,
         "exploration",
-        "directed graphs with self-loops: ALL graphs on 1..4 nodes (2+16+512+65536, exhaustive) and random graphs on 5..12 nodes (edge density drawn per case, DAG-biased half of the time with an optional single back edge), each realised as a function-block instance graph (VAR / VAR_INPUT / VAR_OUTPUT instances) as a type graph (alias / structure element; enumeration values and defaults now and then written with the declaration's own name or the root enumeration's name in front: no edge) and as a mixed graph (every node a function block or a structure, edges = instance variables / structure elements; in a third of the graphs a quarter of the edges go through ARRAY OF and are soft: cycles only through them are not judged), declarations in a seed-derived order, every reference spelled in lower, UPPER or Capitalised case, other variables / elements (plain, initialised, enumeration, array, string, structure with initialiser) declared before the edge declarations, a quarter of the edges declared twice (two instances / elements of one type); in a third of the units bystander declarations of every other kind (all TYPE forms incl. structure initialisation, function, program, configuration); in a third of the function-block realisations bodies that invoke the instances, with instances and variables named like declarations of the unit. Large graphs (chains, fan-out, fan-in, layered and sparse DAGs on 40 / 120 / 400 nodes, half with one back edge) through `ironplcc check`. Oracle: reference DFS cycle test (cross-checked by transitive closure for n<=4): cyclic => P0010 or P0013 reported; acyclic => neither. Non-trivial: >= 2 nodes and >= 1 edge; distinct by program text.",
+        "directed graphs with self-loops: ALL graphs on 1..4 nodes (2+16+512+65536, exhaustive) and random graphs on 5..12 nodes (edge density drawn per case, DAG-biased half of the time with an optional single back edge), each realised as a function-block instance graph (VAR / VAR_INPUT / VAR_OUTPUT instances; now and then a VAR_EXTERNAL of a block type, the block's own included: no edge) as a type graph (alias / structure element; enumeration values and defaults now and then written with the declaration's own name or the root enumeration's name in front: no edge) and as a mixed graph (every node a function block or a structure, edges = instance variables / structure elements; in a third of the graphs a quarter of the edges go through ARRAY OF and are soft: cycles only through them are not judged), declarations in a seed-derived order, every reference spelled in lower, UPPER or Capitalised case, other variables / elements (plain, initialised, enumeration, array, string, structure with initialiser) declared before the edge declarations, a quarter of the edges declared twice (two instances / elements of one type); in a third of the units bystander declarations of every other kind (all TYPE forms incl. structure initialisation, function, program, configuration); in a third of the function-block realisations bodies that invoke the instances, with instances and variables named like declarations of the unit. Large graphs (chains, fan-out, fan-in, layered and sparse DAGs on 40 / 120 / 400 nodes, half with one back edge) through `ironplcc check`. Oracle: reference DFS cycle test (cross-checked by transitive closure for n<=4): cyclic => P0010 or P0013 reported; acyclic => neither. Non-trivial: >= 2 nodes and >= 1 edge; distinct by program text.",
     );
     // exhaustive part
     let mut items: Vec<(usize, u64)> = vec![];
